@@ -156,6 +156,7 @@ def run(repo, rep, tier):
                   construct="token-filename-forwarded", where=L.where(tf))
     from . import c11 as _c11
     _c11.filename_chain(repo, rep, "R19.3")
+    L.borrow(repo, rep, "R19.3", "C11", _c11._location, ("location-pair",))
     L.state_rule(repo, rep)
 
 
